@@ -59,6 +59,51 @@ Theorem C11_put_never_changes_other_get : forall be dir h1 k v h2 k',
   = last (db_results be dir (h1 ++ h2 ++ [OGet k'])) DOk.
 Proof. exact kv_noninterference_lemma. Qed.
 
+(* listings.  FULL STATEMENT: every (key, value) a Dump returns was written under the current
+   (type, session).  fs (text mode): holds under the guards of the listing theorem (dump_ok).
+   pg (db/postgres/dump.go after the repair 55e3e80: every row is compared with the lower bound):
+   holds under pg_list_ok = a documented type and a session id for the sessioned types.  What
+   remains excluded and why: (1) a sessioned type WITHOUT session id lists every session whose
+   stored key begins with the requested key (the empty-id finding K-C11-2, refuted above for Get);
+   (2) prefix values that are not one of the six documented types: a type that is both sessioned and
+   language-scoped could confuse a language suffix with a session prefix.  The dot-free session ids
+   and three-byte language codes are part of hist_ok. *)
+Theorem C11_pg_listing_isolated_partial : forall dir ops p l,
+  hist_ok spec_init ops = true ->
+  let st := fst (db_run BPg (db_init dir) ops) in
+  let sp := fst (spec_run spec_init ops) in
+  pg_list_ok sp = true ->
+  snd (db_step BPg st (ODump p)) = DDump l ->
+  forall k v, In (k, v) l -> exists a, same_space (sp_base sp) a = true /\ slookup a (sp_map sp) = Some v.
+Proof. exact pg_listing_isolated_partial_lemma. Qed.
+
+Theorem C11_fs_listing_isolated_partial : forall dir ops p l,
+  dir_ok dir = true -> dir <> [] ->
+  fs_hist_ok false spec_init ops = true -> forallb put_key_nonempty ops = true ->
+  let st := fst (db_run (BFs false) (db_init dir) ops) in
+  let sp := fst (spec_run spec_init ops) in
+  dump_ok sp = true -> fs_dump false st p = DDump l ->
+  forall k v, In (k, v) l -> exists a, same_space (sp_base sp) a = true /\ slookup a (sp_map sp) = Some v.
+Proof. exact fs_listing_isolated_partial_lemma. Qed.
+
+(* regression for the repaired K-C11-5: the listing of STATE under session "s" no longer runs on into
+   the USERDATA rows of "s" *)
+Example C11_pg_dump_cross_type_regression :
+  hist_ok spec_init w_pg_dump = true /\ pg_list_ok (ref_state w_pg_dump) = true
+  /\ snd (db_step BPg (fst (db_run BPg (db_init []) w_pg_dump)) (ODump [])) = DDump [(s2b "a", s2b "state-a")]
+  /\ owned (ref_state w_pg_dump) (s2b "state-a") = true /\ owned (ref_state w_pg_dump) (s2b "user-u") = false.
+Proof. exact pg_dump_cross_type_regression. Qed.
+
+(* non-vacuity of the Postgres listing theorem: two sessions whose ids are prefixes of each other *)
+Example C11_pg_listing_nonvacuous :
+  let h := [OSetPrefix DATATYPE_USERDATA; OSetSession (s2b "2547"); OPut (s2b "k") (s2b "own");
+            OPut (s2b "m") (s2b "own2"); OSetSession (s2b "25471"); OPut (s2b "k") (s2b "other");
+            OSetSession (s2b "2547")] in
+  hist_ok spec_init h = true /\ pg_list_ok (ref_state h) = true
+  /\ snd (db_step BPg (fst (db_run BPg (db_init []) h)) (ODump []))
+     = DDump [(s2b "k", s2b "own"); (s2b "m", s2b "own2")].
+Proof. vm_compute. repeat split. Qed.
+
 (* refutations of the unguarded statement (each also replayed on the real backends by the harness) *)
 Theorem C11_refuted_dot_in_session :
   exists t s k s' k', wf_sid s = true /\ wf_sid s' = false /\ (s, k) <> (s', k')
@@ -109,6 +154,8 @@ Print Assumptions C11_key_lang_injective.
 Print Assumptions C11_path_injective_partial.
 Print Assumptions C11_legacy_never_hits_partial.
 Print Assumptions C11_put_never_changes_other_get.
+Print Assumptions C11_pg_listing_isolated_partial.
+Print Assumptions C11_fs_listing_isolated_partial.
 Print Assumptions C11_refuted_dot_in_session.
 Print Assumptions C11_refuted_empty_session.
 Print Assumptions C11_refuted_fs_traversal.
